@@ -1,5 +1,5 @@
 (* C02sim_d -- per-state simulation lemmas (M_tok state method vs S_tok), see Proofs/C02sim.v and C02simtac.v.
-   Each lemma:  R m s -> st m = X -> wk m = true -> covered m = true -> simok s (step_X m). *)
+   Each lemma:  R m s -> st m = X -> wk m = true -> plain m = true -> simok s (step_X m). *)
 From Coq Require Import NArith List Bool Arith Lia ZifyBool ZifyN.
 From Verif Require Import Sx Str.
 From Verif.Gen Require Import Entities Tokenizer.
@@ -9,24 +9,24 @@ From Verif.Proofs Require Import C02a C02dict C08 C02sim C02simtac.
 Import ListNotations.
 Local Open Scope N_scope.
 
-Lemma sim_afterAttributeNameState : forall m s, R m s -> st m = afterAttributeNameState -> wk m = true -> covered m = true -> simok s (step_afterAttributeNameState m).
+Lemma sim_afterAttributeNameState : forall m s, R m s -> st m = afterAttributeNameState -> wk m = true -> plain m = true -> simok s (step_afterAttributeNameState m).
 Proof. sim_state step_afterAttributeNameState. all: batch_goal_skip. Qed.
 
-Lemma sim_attributeValueSingleQuotedState : forall m s, R m s -> st m = attributeValueSingleQuotedState -> wk m = true -> covered m = true -> simok s (step_attributeValueSingleQuotedState m).
+Lemma sim_attributeValueSingleQuotedState : forall m s, R m s -> st m = attributeValueSingleQuotedState -> wk m = true -> plain m = true -> simok s (step_attributeValueSingleQuotedState m).
 Proof. sim_state step_attributeValueSingleQuotedState. all: (batch_goal batch_val). Qed.
 
-Lemma sim_dataState : forall m s, R m s -> st m = dataState -> wk m = true -> covered m = true -> simok s (step_dataState m).
+Lemma sim_dataState : forall m s, R m s -> st m = dataState -> wk m = true -> plain m = true -> simok s (step_dataState m).
 Proof. sim_state step_dataState. all: (batch_goal batch_emit). Qed.
 
-Lemma sim_plaintextState : forall m s, R m s -> st m = plaintextState -> wk m = true -> covered m = true -> simok s (step_plaintextState m).
+Lemma sim_plaintextState : forall m s, R m s -> st m = plaintextState -> wk m = true -> plain m = true -> simok s (step_plaintextState m).
 Proof. sim_state step_plaintextState. all: (batch_goal batch_emit). Qed.
 
-Lemma sim_rawtextEndTagNameState : forall m s, R m s -> st m = rawtextEndTagNameState -> wk m = true -> covered m = true -> simok s (step_rawtextEndTagNameState m).
+Lemma sim_rawtextEndTagNameState : forall m s, R m s -> st m = rawtextEndTagNameState -> wk m = true -> plain m = true -> simok s (step_rawtextEndTagNameState m).
 Proof. sim_state step_rawtextEndTagNameState. Qed.
 
-Lemma sim_scriptDataEscapedDashDashState : forall m s, R m s -> st m = scriptDataEscapedDashDashState -> wk m = true -> covered m = true -> simok s (step_scriptDataEscapedDashDashState m).
+Lemma sim_scriptDataEscapedDashDashState : forall m s, R m s -> st m = scriptDataEscapedDashDashState -> wk m = true -> plain m = true -> simok s (step_scriptDataEscapedDashDashState m).
 Proof. sim_state step_scriptDataEscapedDashDashState. Qed.
 
-Lemma sim_tagOpenState : forall m s, R m s -> st m = tagOpenState -> wk m = true -> covered m = true -> simok s (step_tagOpenState m).
+Lemma sim_tagOpenState : forall m s, R m s -> st m = tagOpenState -> wk m = true -> plain m = true -> simok s (step_tagOpenState m).
 Proof. sim_state step_tagOpenState. Qed.
 
